@@ -365,7 +365,8 @@ PLANS = {
                                              + fns((0,), more_out=(True,), syms=("SX" if sum(c["id"].encode()) % 2 else "MX",))},
                 quick=dict(n=3, m=3, variants=3, generic=1, corners=1, rand=30),
                 thorough=dict(n=4, m=4, variants=2, generic=1, corners=3, rand=300)),
-    "C17": dict(rel=rel_C17, traj=True, derive=("detour",), want={"np": True, "fn": fns((0,), more_out=(True,))},
+    # (the detour only matters for C17 where an origin can first sit on ANOTHER origin's node: two or more origins)
+    "C17": dict(rel=rel_C17, traj=True, derive=("detour",), derive_if=lambda c: len(c["net"]["origins"]) >= 2, want={"np": True, "fn": fns((0,), more_out=(True,))},
                 quick=dict(n=3, m=3, variants=2, generic=1, corners=13, rand=60),
                 thorough=dict(n=4, m=5, variants=1, generic=1, corners=13, rand=600)),
 }
@@ -423,6 +424,8 @@ def run(pid: str, tier: str, plan=None, extra_cases=None) -> dict:
     if plan.get("derive"):
         derived = []
         for c in base:
+            if plan.get("derive_if") and not plan["derive_if"](c):
+                continue
             for k in range(b.get("nderive", 1)):
                 if "perm" in plan["derive"]:
                     derived.append(dict(derive_perm(c, rng), id=f"{c['id']}-perm{k}"))
